@@ -7,28 +7,54 @@ import YV.Spec.XCompile
 namespace YV.XP
 open YV YV.X YV.XL YV.XC
 
-/-- the steps of a location path (no predicates): a name test, `..`, `.` -/
-inductive PStep | name (p l : List Rune) | up | dot
+/-- the contents of a predicate: the tokens between `[` and `]` and the code they compile to (any expression that
+    parses — `BlkOK` below; `blk_of` makes one of every written expression, so predicates nest) -/
+structure Blk where
+  toks : List Tok
+  code : List PI
+  deriving Repr, DecidableEq
+
+/-- the steps of a location path: a name test with its predicates, `..`, `.` -/
+inductive PStep | name (p l : List Rune) (preds : List Blk) | up | dot
   deriving Repr, DecidableEq
 
 /-- how a location path begins: `/`, a first step, `current()` -/
 inductive PRoot | abs | rel (first : PStep) | cur
   deriving Repr, DecidableEq
 
+def blkToks : List Blk → List Tok
+  | [] => []
+  | b :: r => .ch (chr '[') :: (b.toks ++ .ch (chr ']') :: blkToks r)
+
+def blkCode : List Blk → List PI
+  | [] => []
+  | b :: r => .predStart :: (b.code ++ .predEnd :: blkCode r)
+
+/-- the first token of a step -/
 def PStep.tok : PStep → Tok
-  | .name p l => .nametest p l
+  | .name p l _ => .nametest p l
   | .up => .dotdot
   | .dot => .ch (chr '.')
 
+/-- the tokens after the first: the predicates -/
+def PStep.rest : PStep → List Tok
+  | .name _ _ preds => blkToks preds
+  | _ => []
+
+def PStep.preds : PStep → List Blk
+  | .name _ _ preds => preds
+  | _ => []
+
 def PStep.code : PStep → List PI
-  | .name p l => [.namePush p l]
+  | .name p l [] => [.namePush p l]
+  | .name p l (b :: r) => .namePush p l :: .predicatesStart :: (blkCode (b :: r) ++ [.predicatesEnd])
   | .up => [.pathDotDot]
   | .dot => []
 
 /-- steps, each after a `/` -/
 def sepToks : List PStep → List Tok
   | [] => []
-  | s :: r => .ch (chr '/') :: s.tok :: sepToks r
+  | s :: r => .ch (chr '/') :: s.tok :: (s.rest ++ sepToks r)
 
 def stepsCode : List PStep → List PI
   | [] => []
@@ -37,7 +63,7 @@ def stepsCode : List PStep → List PI
 def pathToks : PRoot → List PStep → List Tok
   | .abs, [] => [.ch (chr '/')]
   | .abs, s :: r => sepToks (s :: r)
-  | .rel f, steps => f.tok :: sepToks steps
+  | .rel f, steps => f.tok :: (f.rest ++ sepToks steps)
   | .cur, steps => .currentfunc :: .ch (chr '(') :: .ch (chr ')') :: sepToks steps
 
 def pathCode : PRoot → List PStep → List PI
@@ -45,7 +71,7 @@ def pathCode : PRoot → List PStep → List PI
   | .rel f, steps => f.code ++ stepsCode steps ++ [.evalLocPath]
   | .cur, steps => .pathSetCurrent :: (stepsCode steps ++ [.evalLocPath])
 
-/-- an expression as written: numbers, literals, location paths without predicates, unary minus, the thirteen
+/-- an expression as written: numbers, literals, location paths (with predicates), unary minus, the thirteen
     binary operators, parentheses, and function calls with up to three argument expressions -/
 inductive PE where
   | path (root : PRoot) (steps : List PStep)
@@ -94,11 +120,33 @@ def PE.code : PE → List PI
   | .call2 fn a b => a.code ++ b.code ++ [.bltin fn]
   | .call3 fn a b c => a.code ++ b.code ++ c.code ++ [.bltin fn]
 
+def tk (s : PSt) : List Tok := s.toks.map (·.tok)
+def advN (n : Nat) (s : PSt) : PSt := { s with toks := s.toks.drop n, pos := s.pos + n }
+
+/-- the state after `n` tokens that produced `code` -/
+def doneG (n : Nat) (code : List PI) (s : PSt) : PSt := { advN n s with out := code.reverse ++ s.out }
+
+def stopAt (lvl : Nat) (t : Tok) : Prop :=
+  (∀ j, lvl ≤ j → binOpAt j t = none) ∧ t ≠ .ch (chr '|') ∧ t ≠ .ch (chr '[') ∧ t ≠ .ch (chr '/') ∧ t ≠ .dblslash ∧
+    startsStep t = false
+
+/-- the contents of a predicate parse as an expression (at level 0, up to the closing bracket) to their code -/
+def BlkOK (b : Blk) : Prop :=
+  ∀ (f : Nat) (s : PSt) (rest : List Tok), 20 * b.toks.length + 20 ≤ f → tk s = b.toks ++ rest →
+    stopAt 0 (rest.headD .eof) → s.strict = false → pLevel f 0 s = .ok (doneG b.toks.length b.code s)
+
+def PStep.ok (st : PStep) : Prop := ∀ b ∈ st.preds, BlkOK b
+
+/-- the predicates of every step of the path parse -/
+def pathOK : PRoot → List PStep → Prop
+  | .rel f, steps => f.ok ∧ ∀ st ∈ steps, st.ok
+  | _, steps => ∀ st ∈ steps, st.ok
+
 /-- `e` can stand where an expression of binary level `lvl` (0 = or … 5 = multiplicative, 6 = unary) is
     expected without further parentheses: a left operand may be of the operator's own level
     (left-associativity), a right operand must bind tighter, the operand of unary minus is unary -/
 def PE.fits : Nat → PE → Prop
-  | _, .path _ _ => True
+  | _, .path root steps => pathOK root steps
   | _, .num _ => True
   | _, .lit _ => True
   | _, .paren e => e.fits 0
@@ -109,13 +157,7 @@ def PE.fits : Nat → PE → Prop
   | _, .call2 fn a b => fn.sig.1.length = 2 ∧ a.fits 0 ∧ b.fits 0
   | _, .call3 fn a b c => fn.sig.1.length = 3 ∧ a.fits 0 ∧ b.fits 0 ∧ c.fits 0
 
-def tk (s : PSt) : List Tok := s.toks.map (·.tok)
-def advN (n : Nat) (s : PSt) : PSt := { s with toks := s.toks.drop n, pos := s.pos + n }
 def done (e : PE) (s : PSt) : PSt := { advN e.toks.length s with out := e.code.reverse ++ s.out }
-
-def stopAt (lvl : Nat) (t : Tok) : Prop :=
-  (∀ j, lvl ≤ j → binOpAt j t = none) ∧ t ≠ .ch (chr '|') ∧ t ≠ .ch (chr '[') ∧ t ≠ .ch (chr '/') ∧ t ≠ .dblslash ∧
-    startsStep t = false
 
 theorem peek_tk (s : PSt) : peekTok s = (tk s).headD .eof := by
   unfold peekTok tk; cases s.toks <;> rfl
@@ -545,8 +587,6 @@ theorem U_call3 (fn : Fn) (a b c : PE) (har : fn.sig.1.length = 3) (ha : T a 0) 
 
 /-! ### location paths -/
 
-/-- the state after `n` tokens that produced `code` -/
-def doneG (n : Nat) (code : List PI) (s : PSt) : PSt := { advN n s with out := code.reverse ++ s.out }
 
 theorem tk_doneG (n : Nat) (code : List PI) (s : PSt) : tk (doneG n code s) = (tk s).drop n := by
   simp [tk, doneG, advN, List.map_drop]
@@ -563,23 +603,101 @@ theorem relTail_stop (s : PSt) (h1 : peekTok s ≠ .ch (chr '/')) (h2 : peekTok 
   · rename_i hc; exact absurd hc h2
   · rfl
 
-theorem pStep_ok (f : Nat) (s : PSt) (st : PStep) (h : peekTok s = st.tok) (h2 : peekTok (adv s) ≠ .ch (chr '[')) :
-    pStep (f + 1) s = .ok (doneG 1 st.code s) := by
-  cases st with
-  | name p l =>
-    simp only [PStep.tok] at h
-    have h2' : peekTok (emit (adv s) (.namePush p l)) ≠ .ch (chr '[') := h2
-    simp only [pStep, h, h2', ↓reduceIte]
-    rfl
-  | up =>
-    simp only [PStep.tok] at h
-    simp only [pStep, h]
-    rfl
-  | dot =>
-    simp only [PStep.tok] at h
-    simp only [pStep, h, ↓reduceIte]
+theorem drop_step {α : Type} (x : α) (a b : List α) : (x :: (a ++ b)).drop (1 + a.length) = b := by
+  rw [Nat.add_comm]; simp
+
+theorem stopAt_rbracket (lvl : Nat) : stopAt lvl (.ch (chr ']')) := by
+  refine ⟨fun j _ => ?_, by simp [chr], by simp [chr], by simp [chr], by simp, by simp [startsStep, chr]⟩
+  rcases j with _ | _ | _ | _ | _ | _ | j <;> simp [binOpAt, chr]
+
+theorem doneG_strict (n : Nat) (c : List PI) (s : PSt) : (doneG n c s).strict = s.strict := rfl
+
+theorem pPreds_succ (f : Nat) (s : PSt) (h : peekTok s = .ch (chr '[')) :
+    pPreds (f + 1) s = (pLevel f 0 (emit (adv s) .predStart) >>= fun s => expectCh ']' s >>= fun s =>
+      pPreds f (emit s .predEnd)) := by
+  simp only [pPreds, h, ↓reduceIte]
+
+/-- predicates, each `[` expression `]`, up to a token that is not `[` -/
+theorem pPreds_ok : ∀ (preds : List Blk) (f : Nat) (s : PSt) (rest : List Tok), (∀ b ∈ preds, BlkOK b) →
+    tk s = blkToks preds ++ rest → rest.headD .eof ≠ .ch (chr '[') → 20 * (blkToks preds).length + 1 ≤ f →
+    s.strict = false → pPreds f s = .ok (doneG (blkToks preds).length (blkCode preds) s) := by
+  intro preds
+  induction preds with
+  | nil =>
+    intro f s rest _ ht hr hf _
+    obtain ⟨f', rfl⟩ : ∃ f', f = f' + 1 := ⟨f - 1, by omega⟩
+    have hp : peekTok s ≠ .ch (chr '[') := by rw [peek_tk, ht]; simpa [blkToks] using hr
+    rw [pPreds_stop f' s hp]
     apply congrArg
-    apply PSt.ext' <;> simp [doneG, advN, adv, PStep.code]
+    apply PSt.ext' <;> simp [doneG, advN, blkToks, blkCode]
+  | cons b r ih =>
+    intro f s rest hok ht hr hf hst
+    obtain ⟨f', rfl⟩ : ∃ f', f = f' + 1 := ⟨f - 1, by omega⟩
+    have ht' : tk s = .ch (chr '[') :: (b.toks ++ (.ch (chr ']') :: (blkToks r ++ rest))) := by
+      simpa [blkToks] using ht
+    have hp : peekTok s = .ch (chr '[') := by rw [peek_tk, ht']; rfl
+    have hb := hok b (by simp) f' (emit (adv s) .predStart) (.ch (chr ']') :: (blkToks r ++ rest))
+      (by simp [blkToks] at hf; omega) (by show tk (adv s) = _; rw [tk_adv, ht']; simp) (stopAt_rbracket 0) hst
+    rw [pPreds_succ f' s hp, hb, ok_bind]
+    have hpk : peekTok (doneG b.toks.length b.code (emit (adv s) .predStart)) = .ch (chr ']') := by
+      rw [peek_tk, tk_doneG]; show ((tk (adv s)).drop _).headD .eof = _
+      rw [tk_adv, ht']; simp
+    rw [expectCh_ok ']' _ hpk, ok_bind]
+    rw [ih f' (emit (adv (doneG b.toks.length b.code (emit (adv s) .predStart))) .predEnd) rest
+      (fun x hx => hok x (by simp [hx]))
+      (by show tk (adv (doneG b.toks.length b.code (emit (adv s) .predStart))) = _
+          rw [tk_adv, tk_doneG]; show (((tk (adv s)).drop _).drop 1) = _
+          rw [tk_adv, ht']; simp)
+      hr (by simp [blkToks] at hf ⊢; omega) hst]
+    apply congrArg
+    apply PSt.ext' <;>
+      simp [doneG, advN, adv, emit, blkToks, blkCode, List.drop_drop, Nat.add_comm, Nat.add_assoc, Nat.add_left_comm] <;>
+      omega
+
+theorem step_toks_length (st : PStep) : (st.tok :: st.rest).length = 1 + st.rest.length := by simp; omega
+
+/-- one step with its predicates -/
+theorem pStep_ok (f : Nat) (s : PSt) (st : PStep) (rest : List Tok) (hok : st.ok) (ht : tk s = st.tok :: (st.rest ++ rest))
+    (h2 : rest.headD .eof ≠ .ch (chr '[')) (hf : 20 * (1 + st.rest.length) + 2 ≤ f + 1) (hst : s.strict = false) :
+    pStep (f + 1) s = .ok (doneG (1 + st.rest.length) st.code s) := by
+  have hp : peekTok s = st.tok := by rw [peek_tk, ht]; rfl
+  cases st with
+  | name p l preds =>
+    simp only [PStep.tok] at hp
+    cases preds with
+    | nil =>
+      have hn : peekTok (emit (adv s) (.namePush p l)) ≠ .ch (chr '[') := by
+        show peekTok (adv s) ≠ _
+        rw [peek_tk, tk_adv, ht]; simpa [PStep.rest, blkToks] using h2
+      simp only [pStep, hp, hn, ↓reduceIte]
+      change Except.ok _ = Except.ok _
+      apply congrArg
+      apply PSt.ext' <;> simp [doneG, advN, adv, emit, PStep.rest, PStep.code, blkToks]
+    | cons b r =>
+      have hn : peekTok (emit (adv s) (.namePush p l)) = .ch (chr '[') := by
+        show peekTok (adv s) = _
+        rw [peek_tk, tk_adv, ht]; simp [PStep.rest, blkToks]
+      have hpr := pPreds_ok (b :: r) f (emit (emit (adv s) (.namePush p l)) .predicatesStart) rest hok
+        (by show tk (adv s) = _; rw [tk_adv, ht]; simp [PStep.rest])
+        h2 (by simp [PStep.rest] at hf ⊢; omega) hst
+      simp only [pStep, hp, hn, ↓reduceIte]
+      rw [hpr]
+      change Except.ok _ = Except.ok _
+      apply congrArg
+      apply PSt.ext' <;>
+        simp [doneG, advN, adv, emit, PStep.rest, PStep.code, List.drop_drop, Nat.add_comm] <;> omega
+  | up =>
+    simp only [PStep.tok] at hp
+    simp only [pStep, hp]
+    change Except.ok _ = Except.ok _
+    apply congrArg
+    apply PSt.ext' <;> simp [doneG, advN, adv, emit, PStep.rest, PStep.code]
+  | dot =>
+    simp only [PStep.tok] at hp
+    simp only [pStep, hp, ↓reduceIte]
+    change Except.ok _ = Except.ok _
+    apply congrArg
+    apply PSt.ext' <;> simp [doneG, advN, adv, PStep.rest, PStep.code]
 
 theorem pRelPath_succ (f : Nat) (s : PSt) :
     pRelPath (f + 1) s = (pStep f s >>= fun s =>
@@ -590,36 +708,43 @@ theorem pRelPath_succ (f : Nat) (s : PSt) :
   simp only [pRelPath]
   rfl
 
+/-- the tokens of a step followed by further steps each after a `/` -/
+def relToks (st : PStep) (r : List PStep) : List Tok := st.tok :: (st.rest ++ sepToks r)
+
 /-- a step, then further steps each after a `/`, up to a token that is none of `/`, `//`, `[` -/
-theorem relPath_ok : ∀ (r : List PStep) (st : PStep) (f : Nat) (s : PSt) (rest : List Tok), 2 * r.length + 2 ≤ f →
-    tk s = st.tok :: (sepToks r ++ rest) → rest.headD .eof ≠ .ch (chr '/') → rest.headD .eof ≠ .dblslash →
-    rest.headD .eof ≠ .ch (chr '[') →
-    pRelPath f s = .ok (doneG (1 + (sepToks r).length) (st.code ++ stepsCode r) s) := by
+theorem relPath_ok : ∀ (r : List PStep) (st : PStep) (f : Nat) (s : PSt) (rest : List Tok),
+    st.ok → (∀ x ∈ r, x.ok) → 20 * (relToks st r).length + 3 ≤ f →
+    tk s = relToks st r ++ rest → rest.headD .eof ≠ .ch (chr '/') → rest.headD .eof ≠ .dblslash →
+    rest.headD .eof ≠ .ch (chr '[') → s.strict = false →
+    pRelPath f s = .ok (doneG (relToks st r).length (st.code ++ stepsCode r) s) := by
   intro r
   induction r with
   | nil =>
-    intro st f s rest hf ht h1 h2 h3
-    obtain ⟨f', rfl⟩ : ∃ f', f = f' + 1 + 1 := ⟨f - 2, by simp at hf; omega⟩
-    have hp : peekTok s = st.tok := by rw [peek_tk, ht]; rfl
-    have hn : peekTok (adv s) = rest.headD .eof := by rw [peek_tk, tk_adv, ht]; simp [sepToks]
-    rw [pRelPath_succ, pStep_ok f' s st hp (by rw [hn]; exact h3), ok_bind]
-    have hd : peekTok (doneG 1 st.code s) = rest.headD .eof := by rw [peek_tk, tk_doneG, ht]; simp [sepToks]
+    intro st f s rest hok _ hf ht h1 h2 h3 hst
+    obtain ⟨f', rfl⟩ : ∃ f', f = f' + 1 + 1 := ⟨f - 2, by simp [relToks] at hf; omega⟩
+    have ht' : tk s = st.tok :: (st.rest ++ rest) := by simpa [relToks, sepToks] using ht
+    rw [pRelPath_succ, pStep_ok f' s st rest hok ht' h3 (by simp [relToks, sepToks] at hf; omega) hst, ok_bind]
+    have hd : peekTok (doneG (1 + st.rest.length) st.code s) = rest.headD .eof := by
+      rw [peek_tk, tk_doneG, ht', drop_step]
     rw [relTail_stop _ (by rw [hd]; exact h1) (by rw [hd]; exact h2)]
-    simp [sepToks, stepsCode]
+    simp [relToks, sepToks, stepsCode, Nat.add_comm]
   | cons st2 r ih =>
-    intro st f s rest hf ht h1 h2 h3
-    obtain ⟨f', rfl⟩ : ∃ f', f = f' + 1 + 1 := ⟨f - 2, by simp at hf; omega⟩
-    have hp : peekTok s = st.tok := by rw [peek_tk, ht]; rfl
-    have hn : peekTok (adv s) = .ch (chr '/') := by rw [peek_tk, tk_adv, ht]; simp [sepToks]
-    rw [pRelPath_succ, pStep_ok f' s st hp (by rw [hn]; simp [chr]), ok_bind]
-    have hd : peekTok (doneG 1 st.code s) = .ch (chr '/') := by rw [peek_tk, tk_doneG, ht]; simp [sepToks]
+    intro st f s rest hok hoks hf ht h1 h2 h3 hst
+    obtain ⟨f', rfl⟩ : ∃ f', f = f' + 1 + 1 := ⟨f - 2, by simp [relToks] at hf; omega⟩
+    have ht' : tk s = st.tok :: (st.rest ++ (.ch (chr '/') :: (relToks st2 r ++ rest))) := by
+      simpa [relToks, sepToks] using ht
+    rw [pRelPath_succ, pStep_ok f' s st _ hok ht' (by simp [chr]) (by simp [relToks, sepToks] at hf; omega) hst, ok_bind]
+    have hd : peekTok (doneG (1 + st.rest.length) st.code s) = .ch (chr '/') := by
+      rw [peek_tk, tk_doneG, ht', drop_step]; rfl
     rw [hd]
     simp only [↓reduceIte]
-    rw [ih st2 (f' + 1) (adv (doneG 1 st.code s)) rest (by simp at hf ⊢; omega)
-      (by rw [tk_adv, tk_doneG, ht]; simp [sepToks]) h1 h2 h3]
+    rw [ih st2 (f' + 1) (adv (doneG (1 + st.rest.length) st.code s)) rest (hoks st2 (by simp))
+      (fun x hx => hoks x (by simp [hx])) (by simp [relToks, sepToks] at hf ⊢; omega)
+      (by rw [tk_adv, tk_doneG, ht', drop_step]; rfl) h1 h2 h3 hst]
     apply congrArg
     apply PSt.ext' <;>
-      simp [doneG, advN, adv, sepToks, stepsCode, List.drop_drop, Nat.add_comm, Nat.add_assoc, Nat.add_left_comm] <;> omega
+      simp [doneG, advN, adv, relToks, sepToks, stepsCode, List.drop_drop, Nat.add_comm, Nat.add_assoc, Nat.add_left_comm] <;>
+      omega
 
 theorem step_starts (st : PStep) : startsStep st.tok = true := by
   cases st <;> simp [PStep.tok, startsStep, chr]
@@ -627,24 +752,20 @@ theorem step_starts (st : PStep) : startsStep st.tok = true := by
 theorem pPath_step (f : Nat) (s : PSt) (st : PStep) (h : peekTok s = st.tok) :
     pPath (f + 1) s = (pRelPath f s >>= fun s => pure (emit s .evalLocPath)) := by
   cases st with
-  | name p l => simp only [PStep.tok] at h; simp only [pPath, h]
+  | name p l preds => simp only [PStep.tok] at h; simp only [pPath, h]
   | up => simp only [PStep.tok] at h; simp only [pPath, h]
   | dot =>
     simp only [PStep.tok] at h
     simp only [pPath, h]
     simp [chr]
 
-theorem sepToks_length (r : List PStep) : (sepToks r).length = 2 * r.length := by
-  induction r with
-  | nil => rfl
-  | cons a r ih => simp [sepToks, ih]; omega
+theorem sepToks_cons (st : PStep) (r : List PStep) : sepToks (st :: r) = .ch (chr '/') :: relToks st r := rfl
 
-theorem U_path (root : PRoot) (steps : List PStep) : U (.path root steps) := by
+theorem U_path (root : PRoot) (steps : List PStep) (hok : pathOK root steps) : U (.path root steps) := by
   intro g s rest hg ht hs hst
   have hr1 := hs.2.2.2.1
   have hr2 := hs.2.2.2.2.1
   have hr3 := hs.2.2.1
-  have hlen : ∀ r : List PStep, (sepToks r).length = 2 * r.length := sepToks_length
   cases root with
   | abs =>
     have hp : peekTok s = .ch (chr '/') := by
@@ -660,7 +781,6 @@ theorem U_path (root : PRoot) (steps : List PStep) : U (.path root steps) := by
         simp only [pPath, hp]
         simp only [show chr '/' ≠ chr '(' by simp [chr], ↓reduceIte, hn, hs.2.2.2.2.2, Bool.false_eq_true]
         change Except.ok _ = Except.ok _
-        change Except.ok _ = Except.ok _
         apply congrArg
         apply PSt.ext' <;> simp [done, advN, adv, emit, PE.toks, PE.code, pathToks, pathCode, stepsCode]
       rw [this, ok_bind]
@@ -669,16 +789,16 @@ theorem U_path (root : PRoot) (steps : List PStep) : U (.path root steps) := by
       have hn : peekTok (emit (adv s) .pathRoot) = st.tok := by
         show peekTok (adv s) = _
         rw [peek_tk, tk_adv, ht]; simp [PE.toks, pathToks, sepToks]
-      have hrel := relPath_ok r st g' (emit (adv s) .pathRoot) rest
-        (by simp [B, PE.toks, pathToks, sepToks, hlen] at hg ⊢; omega)
-        (by show tk (adv s) = _; rw [tk_adv, ht]; simp [PE.toks, pathToks, sepToks]) hr1 hr2 hr3
+      have hrel := relPath_ok r st g' (emit (adv s) .pathRoot) rest (hok st (by simp)) (fun x hx => hok x (by simp [hx]))
+        (by simp [B, PE.toks, pathToks, sepToks_cons] at hg ⊢; omega)
+        (by show tk (adv s) = _; rw [tk_adv, ht]; simp [PE.toks, pathToks, sepToks_cons]) hr1 hr2 hr3 hst
       have : pPath (g' + 1) s = .ok (done (.path .abs (st :: r)) s) := by
         simp only [pPath, hp]
         simp only [show chr '/' ≠ chr '(' by simp [chr], ↓reduceIte, hn, step_starts, hrel]
         change Except.ok _ = Except.ok _
         apply congrArg
         apply PSt.ext' <;>
-          simp [done, doneG, advN, adv, emit, PE.toks, PE.code, pathToks, pathCode, stepsCode, sepToks, List.drop_drop,
+          simp [done, doneG, advN, adv, emit, PE.toks, PE.code, pathToks, pathCode, stepsCode, sepToks_cons, List.drop_drop,
             Nat.add_comm, Nat.add_assoc, Nat.add_left_comm] <;> omega
       rw [this, ok_bind]
       exact pUnionRest_stop _ _ (by rw [peek_done _ s rest ht]; exact hs.2.1)
@@ -686,13 +806,14 @@ theorem U_path (root : PRoot) (steps : List PStep) : U (.path root steps) := by
     have hp : peekTok s = f.tok := by rw [peek_tk, ht]; rfl
     obtain ⟨g', rfl⟩ : ∃ g', g = g' + 1 + 1 := ⟨g - 2, by simp [B] at hg; omega⟩
     rw [pUnary_pos _ _ (by rw [hp]; cases f <;> simp [PStep.tok, chr])]
-    have hrel := relPath_ok steps f g' s rest
-      (by simp [B, PE.toks, pathToks, hlen] at hg ⊢; omega) (by rw [ht]; simp [PE.toks, pathToks]) hr1 hr2 hr3
+    have hrel := relPath_ok steps f g' s rest hok.1 hok.2
+      (by simp [B, PE.toks, pathToks, relToks] at hg ⊢; omega) (by rw [ht]; simp [PE.toks, pathToks, relToks]) hr1 hr2 hr3 hst
     have : pPath (g' + 1) s = .ok (done (.path (.rel f) steps) s) := by
       rw [pPath_step g' s f hp, hrel, ok_bind]
+      change Except.ok _ = Except.ok _
       apply congrArg
       apply PSt.ext' <;>
-        simp [done, doneG, advN, adv, emit, PE.toks, PE.code, pathToks, pathCode, Nat.add_comm]
+        simp [done, doneG, advN, adv, emit, PE.toks, PE.code, pathToks, pathCode, relToks, Nat.add_comm]
     rw [this, ok_bind]
     exact pUnionRest_stop _ _ (by rw [peek_done _ s rest ht]; exact hs.2.1)
   | cur =>
@@ -711,7 +832,6 @@ theorem U_path (root : PRoot) (steps : List PStep) : U (.path root steps) := by
         rw [expectCh_ok '(' _ h1, ok_bind, expectCh_ok ')' _ h2, ok_bind]
         simp only [hn, hr1, ↓reduceIte]
         change Except.ok _ = Except.ok _
-        change Except.ok _ = Except.ok _
         apply congrArg
         apply PSt.ext' <;> simp [done, advN, adv, emit, PE.toks, PE.code, pathToks, pathCode, stepsCode, sepToks, Nat.add_assoc]
       rw [this, ok_bind]
@@ -720,10 +840,11 @@ theorem U_path (root : PRoot) (steps : List PStep) : U (.path root steps) := by
       have hn : peekTok (emit (adv (adv (adv s))) .pathSetCurrent) = .ch (chr '/') := by
         show peekTok (adv (adv (adv s))) = _
         rw [peek_tk, tk_adv, tk_adv, tk_adv, ht]; simp [PE.toks, pathToks, sepToks]
-      have hrel := relPath_ok r st g' (adv (emit (adv (adv (adv s))) .pathSetCurrent)) rest
-        (by simp [B, PE.toks, pathToks, sepToks, hlen] at hg ⊢; omega)
+      have hrel := relPath_ok r st g' (adv (emit (adv (adv (adv s))) .pathSetCurrent)) rest (hok st (by simp))
+        (fun x hx => hok x (by simp [hx]))
+        (by simp [B, PE.toks, pathToks, sepToks_cons] at hg ⊢; omega)
         (by show tk (adv (adv (adv (adv s)))) = _
-            rw [tk_adv, tk_adv, tk_adv, tk_adv, ht]; simp [PE.toks, pathToks, sepToks]) hr1 hr2 hr3
+            rw [tk_adv, tk_adv, tk_adv, tk_adv, ht]; simp [PE.toks, pathToks, sepToks_cons]) hr1 hr2 hr3 hst
       have : pPath (g' + 1) s = .ok (done (.path .cur (st :: r)) s) := by
         simp only [pPath, hp]
         rw [expectCh_ok '(' _ h1, ok_bind, expectCh_ok ')' _ h2, ok_bind]
@@ -731,7 +852,7 @@ theorem U_path (root : PRoot) (steps : List PStep) : U (.path root steps) := by
         change Except.ok _ = Except.ok _
         apply congrArg
         apply PSt.ext' <;>
-          simp [done, doneG, advN, adv, emit, PE.toks, PE.code, pathToks, pathCode, stepsCode, sepToks, List.drop_drop,
+          simp [done, doneG, advN, adv, emit, PE.toks, PE.code, pathToks, pathCode, stepsCode, sepToks_cons, List.drop_drop,
             Nat.add_comm, Nat.add_assoc, Nat.add_left_comm] <;> omega
       rw [this, ok_bind]
       exact pUnionRest_stop _ _ (by rw [peek_done _ s rest ht]; exact hs.2.1)
@@ -764,9 +885,10 @@ theorem prec_main (e : PE) :
     (∀ lvl, lvl ≤ 6 → e.fits lvl → T e lvl) ∧ (∀ k, k ≤ 5 → e.fits k → C e k) ∧ (e.fits 6 → U e) := by
   induction e with
   | path root steps =>
-    have hl := ladder (.path root steps) 6 (Nat.le_refl _) (T6_of_U _ (U_path root steps))
-    exact ⟨fun lvl h _ => (hl (6 - lvl) lvl (by omega)).1, fun k h _ => (hl (6 - k) k (by omega)).2 (by omega),
-      fun _ => U_path root steps⟩
+    have hu : (PE.path root steps).fits 6 → U (.path root steps) := fun hf => U_path root steps hf
+    refine ⟨fun lvl h hf => ?_, fun k h hf => ?_, hu⟩
+    · exact ((ladder _ 6 (Nat.le_refl _) (T6_of_U _ (hu hf))) (6 - lvl) lvl (by omega)).1
+    · exact ((ladder _ 6 (Nat.le_refl _) (T6_of_U _ (hu hf))) (6 - k) k (by omega)).2 (by omega)
   | num x =>
     have hl := ladder (.num x) 6 (Nat.le_refl _) (T6_of_U _ (U_num x))
     exact ⟨fun lvl h _ => (hl (6 - lvl) lvl (by omega)).1, fun k h _ => (hl (6 - k) k (by omega)).2 (by omega), fun _ => U_num x⟩
@@ -824,13 +946,13 @@ theorem prec_main (e : PE) :
 
 /-- the tree behind the written expression: parentheses removed -/
 inductive ET where
-  | path (root : PRoot) (steps : List PStep)
+  | path (code : List PI)      -- a location path: what it compiles to (its predicates' texts may differ in parentheses)
   | num (x : SF) | lit (s : List Rune) | neg (e : ET) | bin (op : BinOp) (a b : ET)
   | call0 (fn : Fn) | call1 (fn : Fn) (a : ET) | call2 (fn : Fn) (a b : ET) | call3 (fn : Fn) (a b c : ET)
   deriving Repr, DecidableEq
 
 def PE.tree : PE → ET
-  | .path root steps => .path root steps
+  | .path root steps => .path (pathCode root steps)
   | .num x => .num x
   | .lit s => .lit s
   | .paren e => e.tree
@@ -842,7 +964,7 @@ def PE.tree : PE → ET
   | .call3 fn a b c => .call3 fn a.tree b.tree c.tree
 
 def ET.code : ET → List PI
-  | .path root steps => pathCode root steps
+  | .path c => c
   | .num x => [.num x]
   | .lit s => [.lit s]
   | .neg e => e.code ++ [.negate]
@@ -884,5 +1006,11 @@ theorem parseExprToks_spec (e : PE) (hf : e.fits 0) (toks : List LexedTok)
     simp only [this, ↓reduceIte]
     rfl
   · simp [emit, done, code_tree]
+
+/-- every written expression can stand in a predicate: predicates nest to any depth -/
+theorem blk_of (e : PE) (hf : e.fits 0) : BlkOK ⟨e.toks, e.code⟩ := by
+  intro f s rest hfu ht hs hst
+  have hT := (prec_main e).1 0 (by omega) hf
+  exact hT f s rest (by simp only [B]; simp only at hfu; omega) ht hs hst
 
 end YV.XP
